@@ -75,18 +75,19 @@ type GhostVar struct {
 
 // AtCall: ghost update performed right after the n-th call (source order) of a callee whose name ends with Callee
 type AtCall struct {
-	AtReturn bool  // executed right before every return of the function
-	LHS      *Spec // ghost variable, ghost field x.f or ghost array element x.f[i]
-	Optional bool  // the anchor may be absent (no such call): the update is then skipped
-	Assume   bool  // assumed (unchecked, reported) instead of proved
-	Text     string
-	Hint     bool // proved (then assumed) right before the call instead of a ghost update after it
-	Props    []string
-	Callee   string
-	N        int
-	Var      string
-	Expr     *Spec
-	Line     int
+	AtReturn  bool  // executed right before every return of the function
+	LHS       *Spec // ghost variable, ghost field x.f or ghost array element x.f[i]
+	Optional  bool  // the anchor may be absent (no such call): the update is then skipped
+	Assume    bool  // assumed (unchecked, reported) instead of proved
+	CheckOnly bool  // proved where it stands but not assumed afterwards
+	Text      string
+	Hint      bool // proved (then assumed) right before the call instead of a ghost update after it
+	Props     []string
+	Callee    string
+	N         int
+	Var       string
+	Expr      *Spec
+	Line      int
 }
 
 type PureDef struct {
@@ -117,7 +118,7 @@ var reLoop = regexp.MustCompile(`^loop\s+(\d+)\s+(invariant|decreases|modifies|h
 var reGhostVar = regexp.MustCompile(`^ghost\s+var\s+([A-Za-z_][A-Za-z0-9_]*)\s+(int|bool|\[int\]int|\[int\]bool)\s*=\s*(.*)$`)
 var reAtCall = regexp.MustCompile(`^at\s+call\??\s+([A-Za-z0-9_./()*]+)#(\d+)\s+ghost\s+([A-Za-z_][A-Za-z0-9_.\[\]+\-* ()]*?)\s*:=\s*(.*)$`)
 var reAtReturn = regexp.MustCompile(`^at\s+return\s+ghost\s+([A-Za-z_][A-Za-z0-9_.\[\]+\-* ()]*?)\s*:=\s*(.*)$`)
-var reAtCallHint = regexp.MustCompile(`^at\s+call\??\s+([A-Za-z0-9_./()*]+)#(\d+)\s+(?:hint|assume)(\[[A-Za-z0-9,@]+\])?\s+(.*)$`)
+var reAtCallHint = regexp.MustCompile(`^at\s+call\??\s+([A-Za-z0-9_./()*]+)#(\d+)\s+(?:hint|assume|check)(\[[A-Za-z0-9,@]+\])?\s+(.*)$`)
 var rePure = regexp.MustCompile(`^(?:pure|arith)\s+([A-Za-z_][A-Za-z0-9_]*)\s*\(([^)]*)\)\s*:\s*([A-Za-z0-9_\[\]\*\.]+)\s*=\s*(.*)$`)
 var reGhost = regexp.MustCompile(`^ghost\s+field\s+([A-Za-z_][A-Za-z0-9_]*)\.([A-Za-z_][A-Za-z0-9_]*)\s*:\s*(.*)$`)
 
@@ -264,7 +265,7 @@ func parseContractFile(path string) (*ContractFile, error) {
 				if err != nil {
 					return nil, fail(err)
 				}
-				cur.AtCalls = append(cur.AtCalls, AtCall{Callee: m[1], N: n, Expr: e, Line: l.line, Hint: true, Optional: strings.HasPrefix(t, "at call?"), Props: parseProps(m[3]), Assume: strings.Contains(t[:strings.Index(t, "#")+12], " assume"), Text: m[4]})
+				cur.AtCalls = append(cur.AtCalls, AtCall{Callee: m[1], N: n, Expr: e, Line: l.line, Hint: true, Optional: strings.HasPrefix(t, "at call?"), Props: parseProps(m[3]), Assume: strings.Contains(t[:strings.Index(t, "#")+12], " assume"), CheckOnly: strings.Contains(t[:strings.Index(t, "#")+12], " check"), Text: m[4]})
 				continue
 			}
 			if m := reAtCall.FindStringSubmatch(t); m != nil {
